@@ -5652,3 +5652,115 @@ func ruleCtxEntry(w *World, r *Report) {
 		}
 	}
 }
+
+// HOOK-LOAD-TOLERANT (C13, C15): what is stored loads.
+func ruleHookLoadTolerant(prop string) ruleFn {
+	return func(w *World, r *Report) {
+		r.Rule("HOOK-LOAD-TOLERANT", "the add hook installed by cron.AddHooks is also run for every record of a location that is being loaded (its `loading` parameter is true), and both states' Load give up when it fails.  Therefore, with the `not loading` outcome of every test of that parameter deleted, no error return is reachable from the call of Cronner.ScheduleEvent: a stored rule that the cron cannot schedule (any more — a dated expression whose last occurrence has passed, a full cron) is logged and loaded, not handed on as a failure that makes every later load of its location fail", 1)
+		cr := w.Named("cron", "Cronner")
+		ah := w.Func("cron", "AddHooks")
+		n := 0
+		for _, fn := range ah.AnonFuncs {
+			var scheds []ssa.Instruction
+			allInstrs(fn, func(in ssa.Instruction) {
+				if c := callOf(in); c != nil && isIfaceMethodCall(c, cr, "ScheduleEvent") {
+					scheds = append(scheds, in)
+				}
+			})
+			if len(scheds) == 0 {
+				continue
+			}
+			n++
+			key := "hook=" + fname(fn)
+			var loading ssa.Value
+			for _, p := range fn.Params {
+				if b, ok := p.Type().Underlying().(*types.Basic); ok && b.Kind() == types.Bool {
+					loading = p
+				}
+			}
+			if loading == nil {
+				r.exempt("HOOK-LOAD-TOLERANT", key, w.Pos(fn.Pos()), "the add hook has no boolean `loading` parameter: shape not recognised, not decided")
+				continue
+			}
+			del := map[bedge]bool{}
+			for _, b := range fn.Blocks {
+				if len(b.Instrs) == 0 {
+					continue
+				}
+				ifi, ok := b.Instrs[len(b.Instrs)-1].(*ssa.If)
+				if !ok {
+					continue
+				}
+				ct, ok := decodeIf(ifi)
+				if !ok || !valueIs(resolveSpill(ct.V), loading) {
+					continue
+				}
+				if ct.TrueWhen == "true" {
+					del[bedge{b, 1}] = true
+				} else if ct.TrueWhen == "false" {
+					del[bedge{b, 0}] = true
+				}
+			}
+			isErrRet := func(in ssa.Instruction) bool {
+				_, ok := in.(*ssa.Return)
+				return ok && !isSuccessReturnPS(in)
+			}
+			bad := ""
+			for _, s := range scheds {
+				if h, _ := reach(fn, s, isErrRet, nil, edgeFilterOf(del)); h != nil {
+					bad = w.PosOf(h)
+				}
+			}
+			if bad != "" {
+				r.violation("HOOK-LOAD-TOLERANT", key, bad, "while a location is being loaded, a failure to schedule a stored rule is returned to Load: the location cannot be opened any more")
+			} else {
+				r.ok("HOOK-LOAD-TOLERANT", key, w.PosOf(scheds[0]), "a scheduling failure during a load is not handed on")
+			}
+		}
+		if n == 0 {
+			r.exempt("HOOK-LOAD-TOLERANT", "hook=none", w.Pos(ah.Pos()), "no closure of AddHooks calls Cronner.ScheduleEvent: shape not recognised")
+		}
+	}
+}
+
+// ADD-EXPIRES-STALE (C10): a renewal is not undone by the expiry of what it renews.
+func ruleAddExpiresStale(w *World, r *Report) {
+	r.Rule("ADD-EXPIRES-STALE", "the add hook may look the id up (State.Get), and a lookup purges a fact it finds expired — pattern, record, dependents.  Therefore IndexedState.add deals with an expired predecessor before it indexes anything for the new fact: on the edge on which IdToFact holds something for the id, every path to the hook call (and to the first change of the rule index) passes a call of the purge helper (expire) on that stored fact.  Otherwise re-adding an expired rule under its id with the same `when` succeeds, is listed and enabled, and never fires: the purge inside the hook takes the pattern the new rule was just indexed under", 1)
+	fn := w.Method("core", "IndexedState", "add")
+	key := "fn=" + fname(fn)
+	exp := w.Method("core", "IndexedState", "expire")
+	isHook := func(in ssa.Instruction) bool { _, ok := hookCall(idxState, "addHook", in); return ok }
+	fromLookup := func(v ssa.Value) bool {
+		return dependsOn(v, func(x ssa.Value) bool {
+			lk, ok := x.(*ssa.Lookup)
+			return ok && isFieldLoad(lk.X, idxState, "IdToFact")
+		})
+	}
+	isPurge := func(in ssa.Instruction) bool {
+		c := callOf(in)
+		if c == nil || c.StaticCallee() != exp || len(c.Args) < 4 {
+			return false
+		}
+		return fromLookup(c.Args[3])
+	}
+	var hooks []ssa.Instruction
+	allInstrs(fn, func(in ssa.Instruction) {
+		if isHook(in) {
+			hooks = append(hooks, in)
+		}
+	})
+	if len(hooks) == 0 {
+		r.exempt("ADD-EXPIRES-STALE", key, w.Pos(fn.Pos()), "add does not call the add hook: shape not recognised, not decided")
+		return
+	}
+	// edges on which the id is not stored yet: nothing to purge
+	ef := idxEdgeFilter(fn, true, false, false)
+	// is there a test of presence at all before the hook?  (if every path is `absent`-deleted the rule is vacuous)
+	for _, h := range hooks {
+		if hit, path := reach(fn, nil, func(x ssa.Instruction) bool { return x == h }, isPurge, ef); hit != nil {
+			r.violation("ADD-EXPIRES-STALE", key, w.PosOf(h), "the add hook can run while an expired predecessor is still stored under the id: its lookup purges that predecessor and, with it, what was just indexed for the new fact", blockPathString(w, path)...)
+			return
+		}
+	}
+	r.ok("ADD-EXPIRES-STALE", key, w.PosOf(hooks[0]), "an expired predecessor is purged before anything is indexed or any hook runs")
+}
